@@ -45,6 +45,24 @@ def reaching_def(body, l, at_bb):
     return best
 
 
+CONSTS = {}   # named constants of the crate: path -> text of the initialiser (set by Facts)
+
+
+def expand_consts(d, depth=3):
+    """Replace every `const <path>` of a named constant whose initialiser is a single expression by that expression, so
+    that `Self::IDENTITY` and the literal `Decibels(0.0)` it stands for read the same."""
+    import re
+    for _ in range(depth):
+        changed = False
+        for path, text in CONSTS.items():
+            if ('const ' + path) in d:
+                d = re.sub(r'const ' + re.escape(path) + r'(?![A-Za-z0-9_])', lambda m: text, d)
+                changed = True
+        if not changed:
+            break
+    return d
+
+
 SCALAR_TYS = ('f32', 'f64', 'bool', 'usize', 'isize', 'u8', 'u16', 'u32', 'u64', 'u128', 'i8', 'i16', 'i32', 'i64', 'i128', 'char')
 
 
@@ -371,6 +389,10 @@ def explore(body, tracked=None, summaries=None, max_states=20000, on_call=None):
             continue
         if k == 'switch':
             desc, labels, dplace = switch_info(body, bb)
+            sl0 = op_local(t['op'])
+            if sl0 is not None and ('d', sl0) in env and dplace is None:
+                # the switched temporary was assigned on this path (e.g. the result of a spliced-in predicate helper)
+                desc = env[('d', sl0)]
             targets = [(v, b) for v, b in t['targets']]
             listed = set(v for v, _ in targets)
             if desc in env and dplace is None and '?' not in env[desc]:
